@@ -74,7 +74,8 @@ class IntAdd(Add):
         return IntAdd(*[a/o for a in self.args])
 
     def __rdiv__(self, o):
-        return IntAdd(*[a/o for a in self.args])
+        # o / (sum of integrals) is not a sum of integrals
+        raise TypeError('cannot divide by an integral expression')
 
     __truediv__ = __div__
     __rtruediv__ = __rdiv__
@@ -220,7 +221,8 @@ class Integral(CalculusFunction):
         return Integral(self.expr/o, self.domain)
 
     def __rdiv__(self, o):
-        return Integral(self.expr/o, self.domain)
+        # o / integral(e) is not an integral (it is not integral(e/o), which is integral(e) / o)
+        raise TypeError('cannot divide by an integral')
 
     __truediv__ = __div__
     __rtruediv__ = __rdiv__
